@@ -363,7 +363,7 @@ theorem indexMultiClass_w (n : PTree) (hn : PBodied n) : Keeps (WEq ws0) (Index.
   split
   · refine Triple.bind (W.seq_at (utilsIdentifier_keeps _) s0) fun _ => ?_
     split
-    · refine Triple.bind (W.seq_at (addMulticlass_keeps _) s0) fun mcId => ?_
+    · refine Triple.bind (W.seq_at (addMulticlass_keeps _ rfl) s0) fun mcId => ?_
       refine Triple.bind (W.push s0 _ rfl) fun _ => ?_
       have tail3 : Triple (InBlockW ws0 s0 (ScopeKind.multiclass mcId))
           (match Ast.multiClassStatementList n with
